@@ -87,4 +87,6 @@ func main() {
 	}
 }
 
+func out2() *bufio.Writer { return out }
+
 var replayers = map[string]func(c sx.S){}
